@@ -14,7 +14,11 @@ RULE = ('gin-machine/refs: 2-4 probe configurables; bindings whose values nest @
         'predicate: the exact sequence of (configurable, scope) body executions predicted from the store snapshot by '
         'the rules of the property text, and store equality before/after each call. '
         'non-trivial = a consumer call whose Gin-supplied bindings contain >= 2 evaluated references of which one is '
-        'scoped, or a caller override of a parameter bound to an evaluated reference.')
+        'scoped, or a caller override of a parameter bound to an evaluated reference. '
+        'ref-shapes (implementation only): @make() alone / in a list / in a dict inside a tuple, scoped or not, bound to '
+        'parameters of a consumer of every shape of c01.SHAPES (signature behind decorators, behind Gin\'s wrapper of a '
+        'configurable base class, behind a bound self / cls), every split positional / keyword / omitted, two consecutive '
+        'calls with mutation of what was received; expected runs of make (and their scopes) from the property text.')
 TRUSTED_BASE = c01.TRUSTED_BASE
 ASSUMPTIONS = ['copy.deepcopy on plain containers is CPython; handles are compared by the configurable they denote']
 
@@ -188,4 +192,96 @@ class RefEngine(c01.CallEngine):
     return (len(ev) >= 2 and any(r.args[0] for r in ev)) or over
 
 
-ENGINES = [RefEngine()]
+class RefShapesEngine(Engine):
+  """'@make()' (alone, in a list, in a dict inside a tuple) bound to parameters of a consumer whose signature Gin has to look
+  for (c01.SHAPES: under functools.wraps decorators, behind Gin's own wrapper of a configurable base class, behind a bound
+  self / cls, behind the metaclass wrapper).  From the property text: make runs once per occurrence in the bindings of the
+  parameters the caller does NOT supply (positionally or by keyword) and not at all for those it supplies; the caller's values
+  arrive unchanged, every evaluated reference delivers its own fresh result, under the scope written in the reference or else
+  the scope active at the consuming call.  Implementation only (the model is given the signature)."""
+  name = 'ref-shapes'
+  model = False
+  FORMS = {'bare': ('@%smake()', 1), 'list': ('[@%smake(), 1]', 1), 'nested': ("({'k': [@%smake()]}, @%smake())", 2)}
+
+  def budget(self, tier):
+    return 120 if tier == 'quick' else 3000
+
+  def corpus(self):
+    out = []
+    for shape in c01.SHAPES:
+      for npos, kw in ((1, []), (0, ['a']), (2, []), (0, [])):
+        out.append({'shape': shape, 'params': ['a', 'b'], 'active': ['s1'], 'npos': npos, 'kw': kw,
+                    'binds': [['a', 'list', ''], ['b', 'bare', 's2']]})
+    return out
+
+  def gen(self, rng, tier):
+    params = list(rng.choice([['a', 'b', 'c'], ['a', 'b'], ['x']]))
+    npos = rng.randint(0, len(params))
+    return {'shape': rng.choice(c01.SHAPES), 'params': params, 'active': ginm.gen_scope(rng, 2), 'npos': npos,
+            'kw': [p for p in params[npos:] if rng.random() < 0.35],
+            'binds': [[p, rng.choice(sorted(self.FORMS)), rng.choice(['', '', 's2', 's1/s3'])] for p in params if rng.random() < 0.8]}
+
+  def impl(self, case):
+    gin = C.fresh_gin()
+    runs = []
+
+    def make():
+      runs.append(gin.current_scope_str())
+      return ['result', len(runs)]
+    gin.configurable('make', module=c01.SHAPE_MODULE)(make)
+    call = c01.build_shape(gin, case['shape'], case['params'])
+    text = ''
+    for p, form, rs in case['binds']:
+      tmpl, n = self.FORMS[form]
+      text += 'probe.%s = %s\n' % (p, tmpl % ((rs + '/' if rs else '',) * n))
+    gin.parse_config(text)
+    before = gin.config_str()
+    args = ['pos:%d' % i for i in range(case['npos'])]
+    kwargs = {p: 'kw:' + p for p in case['kw']}
+    supplied = set(case['params'][:case['npos']]) | set(case['kw'])
+    ambient = '/'.join(case['active'])
+    want_runs = []
+    for p, form, rs in case['binds']:
+      if p not in supplied:
+        want_runs += [rs or ambient] * self.FORMS[form][1]
+    what = '%s probe(%s) with %r called with args=%r kwargs=%r under scope %r' % (
+        case['shape'], ', '.join(case['params']), text, args, kwargs, ambient)
+    fails = []
+    for nth in (1, 2):                 # twice: a fresh result each time the consumer is called
+      del runs[:]
+      try:
+        with gin.config_scope(list(case['active']) or None):
+          got = call(*args, **kwargs)
+      except Exception as e:  # pylint: disable=broad-except
+        got = None
+        err = '%s: %s' % (type(e).__name__, str(e).splitlines()[0][:140])
+      if runs != want_runs and any(p in supplied for p, _, _ in case['binds']) and len(runs) > len(want_runs):
+        fails.append(('overridden-reference-still-called', '%s (call %d): make ran under scopes %r although the caller supplies %r; '
+                      'the property requires runs %r%s' % (what, nth, runs, sorted(supplied), want_runs,
+                                                          '' if got is not None else '; the call then raised ' + err)))
+      elif got is None:
+        fails.append(('consumer-call-raised', '%s (call %d) raised %s' % (what, nth, err)))
+      elif runs != want_runs:
+        fails.append(('reference-evaluation-sequence', '%s (call %d): make ran under scopes %r, the property requires %r' %
+                      (what, nth, runs, want_runs)))
+      if got is not None:
+        for i, p in enumerate(case['params']):
+          if p in supplied and got[p] != ('pos:%d' % i if i < case['npos'] else 'kw:' + p):
+            fails.append(('caller-value-not-delivered', '%s: %r received %r' % (what, p, got[p])))
+        # the consumer mutates what it received: the next call, and the config string, must not see it
+        for p, _, _ in case['binds']:
+          v = got.get(p)
+          while isinstance(v, (list, tuple, dict)) and v:
+            inner = v[0] if not isinstance(v, dict) else v['k']
+            if isinstance(v, list):
+              v.append('mutated')
+            v = inner
+      if gin.config_str() != before:
+        fails.append(('store-changed-by-call', '%s: config_str changed from %r to %r' % (what, before, gin.config_str())))
+      if fails:
+        break
+    nontrivial = case['shape'] != 'fn' and any(p in supplied for p, _, _ in case['binds'])
+    return {'obs': T('Done'), 'fails': fails[:3], 'nontrivial': nontrivial, 'tags': [case['shape']]}
+
+
+ENGINES = [RefEngine(), RefShapesEngine()]
